@@ -73,6 +73,40 @@ pub fn generate(tier: &str, rng: &mut Prng) -> Vec<Case> {
         let msg = rng.bytes(ml);
         ops.push(Case::new(format!("verify {n} {} {} {}", hex(&msg), hex(&sig), hex(&pk))));
     }
+    // verify behind decoders that accepted something unusual: mutated public keys and signatures (one thing wrong: a
+    // length off by one, a header bit, a field at the range limit, trailing bytes) go through from_bytes and, when accepted,
+    // on into verify
+    for i in 0..(if thorough { 6000 } else { 400 }) {
+        let n = if i % 2 == 0 { 512 } else { 1024 };
+        let pk = if i % 3 != 0 { mutated(rng, "pk", n) } else { valid_pk(rng, n) };
+        let sig = if i % 3 != 1 {
+            mutated(rng, "sig", n)
+        } else {
+            // a signature that decodes completely (small coefficients), so that verify goes on to use the key
+            let l = crate::c06::sig_len(n);
+            let v: Vec<i16> = (0..n).map(|_| rng.range(-90, 90) as i16).collect();
+            let mut sg = vec![if n == 512 { 0x59u8 } else { 0x5a }];
+            sg.extend_from_slice(&rng.bytes(40));
+            sg.extend_from_slice(&falcon_rust::verif_hooks::compress(&v, l - 41).unwrap());
+            sg
+        };
+        let msg = rng.bytes(4);
+        ops.push(Case::new(format!("verify {n} {} {} {}", hex(&msg), hex(&sig), hex(&pk))));
+    }
+    // signatures whose salt makes the hash stream start with unusually many rejected words (the branch on which a
+    // buffered hash_to_point has to fetch more output): a decodable body (all coefficients zero) and the zero key
+    for (salt, msg) in crate::c14::extremes() {
+        for n in [512usize, 1024] {
+            let l = crate::c06::sig_len(n);
+            let mut sig = vec![if n == 512 { 0x59u8 } else { 0x5a }];
+            sig.extend_from_slice(&salt);
+            let body = falcon_rust::verif_hooks::compress(&vec![0i16; n], l - 41).unwrap();
+            sig.extend_from_slice(&body);
+            let mut pk = vec![crate::c06::logn(n)];
+            pk.resize(crate::c06::pk_len(n), 0);
+            ops.push(Case::new(format!("verify {n} {} {} {}", hex(&msg), hex(&sig), hex(&pk))));
+        }
+    }
     // the former crash inputs stay in the corpus file; two of them inline as well
     ops.push(Case::new("decompress 3 000201".to_string()));
     ops.push(Case::new("decompress 3 000200".to_string()));
